@@ -600,4 +600,378 @@ theorem addArg_existing {fb : FB} {z : Name} (d : Option Val) (h : z ∈ fb.args
   · rw [if_pos hz]
   · rw [if_neg hz, if_pos (h.resolve_left hz)]
 
+/-! ### re-binding: the arguments the generated body passes on bind to the same locals -/
+
+theorem fillPos_names {ps : List (Name × Option Val)} {vs : List Val} {kws r : List (Name × Val)}
+    (h : fillPos ps vs kws = some r) : r.map Prod.fst = ps.map Prod.fst := by
+  induction ps generalizing vs r with
+  | nil => simp [fillPos] at h; subst h; rfl
+  | cons p ps ih =>
+    obtain ⟨n, d⟩ := p
+    cases vs with
+    | cons v vs =>
+      simp only [fillPos] at h
+      split at h
+      · simp at h
+      · cases hr : fillPos ps vs kws with
+        | none => simp [hr] at h
+        | some r' =>
+          simp [hr] at h; subst h
+          simp [ih hr]
+    | nil =>
+      simp only [fillPos] at h
+      split at h
+      · cases hr : fillPos ps [] kws with
+        | none => simp [hr] at h
+        | some r' =>
+          simp [hr] at h; subst h
+          simp [ih hr]
+      · simp at h
+
+theorem fillPos_rebind_pos {ps : List (Name × Option Val)} {r kws : List (Name × Val)} (extra : List Val)
+    (hr : r.map Prod.fst = ps.map Prod.fst) (hk : ∀ p ∈ ps.map Prod.fst, get? p kws = none) :
+    fillPos ps (r.map Prod.snd ++ extra) kws = some r := by
+  induction ps generalizing r with
+  | nil =>
+    cases r with
+    | nil => simp [fillPos]
+    | cons _ _ => simp at hr
+  | cons p ps ih =>
+    obtain ⟨n, d⟩ := p
+    cases r with
+    | nil => simp at hr
+    | cons q r' =>
+      obtain ⟨n', v⟩ := q
+      simp only [List.map_cons, List.cons.injEq] at hr
+      obtain ⟨rfl, hr'⟩ := hr
+      have h0 : get? n' kws = none := hk n' (by simp)
+      simp only [List.map_cons, List.cons_append, fillPos, h0, Option.isSome_none]
+      rw [ih hr' (fun p hp => hk p (by simp [hp]))]
+      simp
+
+theorem fillPos_rebind_kw {ps : List (Name × Option Val)} {r kws : List (Name × Val)}
+    (hr : r.map Prod.fst = ps.map Prod.fst) (hk : ∀ q ∈ r, get? q.1 kws = some q.2) :
+    fillPos ps [] kws = some r := by
+  induction ps generalizing r with
+  | nil =>
+    cases r with
+    | nil => simp [fillPos]
+    | cons _ _ => simp at hr
+  | cons p ps ih =>
+    obtain ⟨n, d⟩ := p
+    cases r with
+    | nil => simp at hr
+    | cons q r' =>
+      obtain ⟨n', v⟩ := q
+      simp only [List.map_cons, List.cons.injEq] at hr
+      obtain ⟨rfl, hr'⟩ := hr
+      have h0 : get? n' kws = some v := hk (n', v) (by simp)
+      simp only [fillPos, h0]
+      rw [ih hr' (fun q hq => hk q (by simp [hq]))]
+      simp
+
+theorem lookupAll_sub {env : List (Name × Val)} (hn : (env.map Prod.fst).Nodup)
+    (l : List (Name × Val)) (hsub : ∀ q ∈ l, q ∈ env) :
+    lookupAll env (l.map Prod.fst) = some (l.map Prod.snd) := by
+  induction l with
+  | nil => rfl
+  | cons q r ih =>
+    obtain ⟨n, v⟩ := q
+    have h0 : get? n env = some v := get?_of_mem_nodup hn (hsub _ List.mem_cons_self)
+    simp only [List.map_cons, lookupAll, h0, ih (fun q hq => hsub q (List.mem_cons_of_mem _ hq))]
+
+theorem lookupKws_sub {env : List (Name × Val)} (hn : (env.map Prod.fst).Nodup)
+    (l : List (Name × Val)) (hsub : ∀ q ∈ l, q ∈ env) :
+    lookupKws env ((l.map Prod.fst).map (fun k => (k, k))) = some l := by
+  induction l with
+  | nil => rfl
+  | cons q r ih =>
+    obtain ⟨n, v⟩ := q
+    have h0 : get? n env = some v := get?_of_mem_nodup hn (hsub _ List.mem_cons_self)
+    simp only [List.map_cons, lookupKws, h0, ih (fun q hq => hsub q (List.mem_cons_of_mem _ hq))]
+
+theorem unknownKw_key_not_mem {s : Sig} {kv : Name × Val} (h : unknownKw s kv = true) : kv.1 ∉ s.names := by
+  simpa [unknownKw] using h
+
+/-- the call expression the builder writes for a signature -/
+def Sig.invocation (s : Sig) : CallExpr :=
+  ⟨s.pos.map Prod.fst, s.varargs, (s.kwonly.map Prod.fst).map (fun k => (k, k)), s.varkw⟩
+
+theorem rebind (s : Sig) (hn : s.names.Nodup) (c : Call) (b : Bound) (h : bind s c = some b) :
+    ∃ c', evalCall s.invocation s b = some c' ∧ bind s c' = some b := by
+  unfold bind at h
+  split at h
+  · simp at h
+  rename_i hva
+  split at h
+  · simp at h
+  rename_i hvk
+  cases ha : fillPos s.pos c.pos c.kws with
+  | none => simp [ha] at h
+  | some a =>
+  cases hk : fillPos s.kwonly [] c.kws with
+  | none => simp [ha, hk] at h
+  | some k =>
+  simp only [ha, hk, Option.some.injEq] at h
+  have han := fillPos_names ha
+  have hkn := fillPos_names hk
+  have hnames : s.names = a.map Prod.fst ++ k.map Prod.fst := by
+    unfold Sig.names; rw [List.map_append, han, hkn]
+  have hn' : (a.map Prod.fst ++ k.map Prod.fst).Nodup := hnames ▸ hn
+  have henv : ((a ++ k).map Prod.fst).Nodup := by rw [List.map_append]; exact hn'
+  have hkN : (k.map Prod.fst).Nodup := (List.nodup_append.mp hn').2.1
+  -- abbreviations for the collected extras
+  generalize hextra : c.pos.drop s.pos.length = extra at h hva
+  generalize hunk : c.kws.filter (unknownKw s) = unk at h hvk
+  have hunkP : ∀ kv ∈ unk, unknownKw s kv = true := by
+    intro kv hkv; rw [← hunk] at hkv; exact (List.mem_filter.mp hkv).2
+  subst h
+  -- the pieces of the evaluated call
+  have e1 : lookupAll (a ++ k) (s.pos.map Prod.fst) = some (a.map Prod.snd) := by
+    rw [← han]; exact lookupAll_sub henv a (fun q hq => List.mem_append_left _ hq)
+  have e3 : lookupKws (a ++ k) ((s.kwonly.map Prod.fst).map (fun k => (k, k))) = some k := by
+    rw [← hkn]; exact lookupKws_sub henv k (fun q hq => List.mem_append_right _ hq)
+  let st : List Val := match s.varargs with | some _ => extra | none => []
+  let ds : List (Name × Val) := match s.varkw with | some _ => unk | none => []
+  have hdsP : ∀ kv ∈ ds, unknownKw s kv = true := by
+    intro kv hkv
+    cases hv : s.varkw with
+    | none => simp [ds, hv] at hkv
+    | some v => simp only [ds, hv] at hkv; exact hunkP kv hkv
+  have hdsall : ds.all (fun kv => (get? kv.1 k).isNone) = true := by
+    rw [List.all_eq_true]
+    intro kv hkv
+    have : kv.1 ∉ k.map Prod.fst := by
+      have := unknownKw_key_not_mem (hdsP kv hkv)
+      rw [hnames] at this
+      exact fun hm => this (List.mem_append_right _ hm)
+    rw [get?_eq_none_of_not_mem this]; rfl
+  refine ⟨⟨a.map Prod.snd ++ st, k ++ ds⟩, ?_, ?_⟩
+  · unfold evalCall Sig.invocation
+    simp only [e1, e3]
+    cases hv : s.varargs <;> cases hw : s.varkw <;>
+      simp [st, ds, hv, hw, hdsall] <;> simpa [ds, hw] using hdsall
+  · have hlen : s.pos.length = (a.map Prod.snd).length := by
+      have := congrArg List.length han; simpa using this.symm
+    have hdrop : (a.map Prod.snd ++ st).drop s.pos.length = st := by
+      rw [hlen]; exact List.drop_left
+    have hfk : (k ++ ds).filter (unknownKw s) = ds := by
+      rw [List.filter_append]
+      have h1 : k.filter (unknownKw s) = [] := by
+        apply List.filter_eq_nil_iff.mpr
+        intro kv hkv hu
+        apply unknownKw_key_not_mem hu
+        rw [hnames]
+        exact List.mem_append_right _ (List.mem_map.mpr ⟨kv, hkv, rfl⟩)
+      rw [h1, List.nil_append]
+      exact List.filter_eq_self.mpr hdsP
+    have hpos : fillPos s.pos (a.map Prod.snd ++ st) (k ++ ds) = some a := by
+      apply fillPos_rebind_pos st han
+      intro p hp
+      apply get?_eq_none_of_not_mem
+      rw [List.map_append]
+      intro hm
+      rcases List.mem_append.mp hm with hm | hm
+      · rw [← han] at hp
+        exact (List.nodup_append.mp hn').2.2 p hp p hm rfl
+      · obtain ⟨kv, hkv, rfl⟩ := List.mem_map.mp hm
+        apply unknownKw_key_not_mem (hdsP kv hkv)
+        unfold Sig.names; rw [List.map_append]
+        exact List.mem_append_left _ hp
+    have hkw : fillPos s.kwonly [] (k ++ ds) = some k := by
+      apply fillPos_rebind_kw hkn
+      intro q hq
+      rw [get?_append, get?_of_mem_nodup hkN hq]; rfl
+    unfold bind
+    simp only [hdrop, hfk, hpos, hkw]
+    cases hv : s.varargs <;> cases hw : s.varkw <;> simp [st, ds, hv, hw]
+
+/-! ### `get_func` and `update_wrapper` -/
+
+def FB.names (fb : FB) : List Name :=
+  fb.args ++ fb.varargs.toList ++ fb.kwonlyargs ++ fb.varkw.toList
+
+/-- the function object `get_func` builds when the source compiles -/
+def FB.toFunc (fb : FB) (ident : Nat) (wrapped : Option Nat) : Func :=
+  ⟨ident, fb.name, fb.doc, fb.module, fb.args, fb.varargs, fb.kwonlyargs, fb.varkw, fb.defaults,
+   fb.kwonlydefaults, fb.annotations, fb.retAnn, fb.isAsync, wrapped, fb.invocationSpecs⟩
+
+theorem names_sub_nodup {fb : FB} (h : fb.names.Nodup) : (fb.args ++ fb.kwonlyargs).Nodup := by
+  refine List.Nodup.sublist ?_ h
+  unfold FB.names
+  rw [List.append_assoc, List.append_assoc]
+  apply List.Sublist.append (List.Sublist.refl _)
+  rw [← List.append_assoc]
+  exact (List.sublist_append_right _ _).trans (List.sublist_append_left _ _)
+
+theorem getFunc_invocation (fb : FB) (ident : Nat) (wrapped : Option Nat) :
+    fb.getFunc ident wrapped fb.invocationSpecs =
+      if fb.names.Nodup then .ok (fb.toFunc ident wrapped) else .error .syntaxError := by
+  unfold FB.getFunc FB.sigSpecs
+  rw [parseDef_format]
+  by_cases h : fb.names.Nodup
+  · have h' : (fb.args ++ fb.varargs.toList ++ fb.kwonlyargs ++ fb.varkw.toList).Nodup := h
+    have hk : fb.kwonlyargs.Nodup := (List.nodup_append.mp (names_sub_nodup h)).2.1
+    rw [if_pos h', if_pos h]
+    unfold FB.invocationSpecs
+    rw [parseCall_invocation _ _ _ _ hk]
+    rfl
+  · have h' : ¬ (fb.args ++ fb.varargs.toList ++ fb.kwonlyargs ++ fb.varkw.toList).Nodup := h
+    rw [if_neg h', if_neg h]
+
+theorem updateWrapper_of_steps {f : Func} {inj : List Name} {exp : List (Name × Option Val)} {o : Opts}
+    {ident : Nat} {fb1 fb2 : FB} (h1 : injectAll o.injectToVarkw (FB.fromFunc f) inj = .ok fb1)
+    (h2 : expectAll fb1 exp = .ok fb2) :
+    updateWrapper f inj exp o ident =
+      if fb2.names.Nodup then .ok (fb2.toFunc ident (if o.hideWrapped then none else some f.ident))
+      else .error .syntaxError := by
+  unfold updateWrapper
+  simp only [h1, h2]
+  exact getFunc_invocation _ _ _
+
+/-- every function `update_wrapper` returns is some builder state compiled: distinct
+    parameter names, body = the builder's own invocation of those parameters -/
+theorem updateWrapper_inv {f : Func} {inj : List Name} {exp : List (Name × Option Val)} {o : Opts}
+    {ident : Nat} {w : Func} (h : updateWrapper f inj exp o ident = .ok w) :
+    ∃ fb1 fb2, injectAll o.injectToVarkw (FB.fromFunc f) inj = .ok fb1 ∧ expectAll fb1 exp = .ok fb2 ∧
+      fb2.names.Nodup ∧ w = fb2.toFunc ident (if o.hideWrapped then none else some f.ident) := by
+  cases h1 : injectAll o.injectToVarkw (FB.fromFunc f) inj with
+  | error e => unfold updateWrapper at h; simp [h1] at h
+  | ok fb1 =>
+    cases h2 : expectAll fb1 exp with
+    | error e => unfold updateWrapper at h; simp [h1, h2] at h
+    | ok fb2 =>
+      rw [updateWrapper_of_steps h1 h2] at h
+      by_cases hn : fb2.names.Nodup
+      · rw [if_pos hn] at h
+        exact ⟨fb1, fb2, rfl, h2, hn, (Except.ok.inj h).symm⟩
+      · rw [if_neg hn] at h; cases h
+
+theorem sigOf_toFunc (fb : FB) (ident : Nat) (wrapped : Option Nat) :
+    sigOf (fb.toFunc ident wrapped) = ⟨fb.posSig, fb.varargs, fb.kwSig, fb.varkw⟩ := rfl
+
+theorem kwAttach_names (kwo : List Name) (kd : List (Name × Val)) : (kwAttach kwo kd).map Prod.fst = kwo := by
+  unfold kwAttach; rw [List.map_map]; simp [Function.comp_def]
+
+theorem sigOf_names (f : Func) : (sigOf f).names = f.args ++ f.kwonly := by
+  unfold Sig.names sigOf
+  rw [List.map_append, attach_names, kwAttach_names]
+
+/-- the body the builder writes is the invocation of the signature it compiles -/
+theorem parseCall_body (fb : FB) (ident : Nat) (wrapped : Option Nat) (hn : fb.names.Nodup) :
+    parseCall (fb.toFunc ident wrapped).body = some (sigOf (fb.toFunc ident wrapped)).invocation := by
+  have hk : fb.kwonlyargs.Nodup := (List.nodup_append.mp (names_sub_nodup hn)).2.1
+  show parseCall fb.invocationSpecs = _
+  unfold FB.invocationSpecs
+  rw [parseCall_invocation _ _ _ _ hk]
+  unfold Sig.invocation
+  rw [sigOf_toFunc]
+  simp only [FB.posSig, FB.kwSig, attach_names, kwAttach_names]
+
+/-- a well-formed Python function object: distinct parameter names, no more positional
+    defaults than positional parameters, keyword-only defaults only for keyword-only
+    parameters (the keys of a dict are distinct) -/
+structure WfFunc (f : Func) : Prop where
+  nodup : (paramNames f).Nodup
+  len : f.defaults.length ≤ f.args.length
+  kwd : ∀ k, k ∈ f.kwdefaults.map Prod.fst → k ∈ f.kwonly
+  kwdNodup : (f.kwdefaults.map Prod.fst).Nodup
+
+theorem wfFB_fromFunc {f : Func} (wf : WfFunc f) : WfFB (FB.fromFunc f) :=
+  ⟨names_sub_nodup (fb := FB.fromFunc f) wf.nodup, wf.len, wf.kwd, wf.kwdNodup⟩
+
+/-! ### whole `injected` / `expected` lists -/
+
+def keyNotIn {α : Type} (xs : List Name) (p : Name × α) : Bool := !(xs.contains p.1)
+
+theorem filter_keyNe_keyNotIn {α : Type} (x : Name) (xs : List Name) (l : List (Name × α)) :
+    (l.filter (keyNe x)).filter (keyNotIn xs) = l.filter (keyNotIn (x :: xs)) := by
+  rw [List.filter_filter]
+  congr 1
+  funext p
+  simp only [keyNe, keyNotIn, List.contains_cons]
+  cases (p.1 == x) <;> simp
+
+theorem injectAll_spec {itv : Bool} {fb fb' : FB} (wf : WfFB fb) (inj : List Name)
+    (h : injectAll itv fb inj = .ok fb') :
+    WfFB fb' ∧ fb'.posSig = fb.posSig.filter (keyNotIn inj) ∧
+      fb'.kwSig = fb.kwSig.filter (keyNotIn inj) ∧ fb'.rest = fb.rest := by
+  induction inj generalizing fb with
+  | nil =>
+    simp only [injectAll, Except.ok.injEq] at h; subst h
+    refine ⟨wf, ?_, ?_, rfl⟩ <;>
+      (symm; apply List.filter_eq_self.mpr; intro p _; simp [keyNotIn])
+  | cons x xs ih =>
+    by_cases hx : x ∈ fb.args
+    · obtain ⟨fb1, hr, wf1, hp, hk, hrest⟩ := removeArg_pos wf hx
+      simp only [injectAll, hr] at h
+      obtain ⟨wf', hp', hk', hrest'⟩ := ih wf1 h
+      exact ⟨wf', by rw [hp', hp, filter_keyNe_keyNotIn], by rw [hk', hk, filter_keyNe_keyNotIn],
+        hrest'.trans hrest⟩
+    · by_cases hk : x ∈ fb.kwonlyargs
+      · obtain ⟨fb1, hr, wf1, hp, hk, hrest⟩ := removeArg_kw wf hx hk
+        simp only [injectAll, hr] at h
+        obtain ⟨wf', hp', hk', hrest'⟩ := ih wf1 h
+        exact ⟨wf', by rw [hp', hp, filter_keyNe_keyNotIn], by rw [hk', hk, filter_keyNe_keyNotIn],
+          hrest'.trans hrest⟩
+      · simp only [injectAll, removeArg_missing hx hk] at h
+        split at h
+        · obtain ⟨wf', hp', hk', hrest'⟩ := ih wf h
+          refine ⟨wf', ?_, ?_, hrest'⟩
+          · rw [hp', ← filter_keyNe_keyNotIn, filter_keyNe_of_not_mem]
+            unfold FB.posSig; rw [attach_names]; exact hx
+          · rw [hk', ← filter_keyNe_keyNotIn, filter_keyNe_of_not_mem]
+            unfold FB.kwSig; rw [kwAttach_names]; exact hk
+        · cases h
+
+theorem get?_insert_ne {α : Type} {p z : Name} (d : α) (pre post : List (Name × α)) (h : p ≠ z) :
+    get? p (pre ++ (z, d) :: post) = get? p (pre ++ post) := by
+  rw [get?_append, get?_append, get?_cons, if_neg (fun e => h e.symm)]
+
+theorem expectAll_spec {fb fb' : FB} (wf : WfFB fb) (exp : List (Name × Option Val))
+    (h : expectAll fb exp = .ok fb') :
+    WfFB fb' ∧ fb'.kwSig = fb.kwSig ∧ fb'.rest = fb.rest ∧
+      (fb'.posSig.map Prod.fst).Perm (fb.posSig.map Prod.fst ++ exp.map Prod.fst) ∧
+      (∀ p, p ∉ exp.map Prod.fst → get? p fb'.posSig = get? p fb.posSig) := by
+  induction exp generalizing fb with
+  | nil =>
+    simp only [expectAll, Except.ok.injEq] at h; subst h
+    exact ⟨wf, rfl, rfl, by simp, fun _ _ => rfl⟩
+  | cons zd zs ih =>
+    obtain ⟨z, d⟩ := zd
+    by_cases hz : z ∈ fb.args ∨ z ∈ fb.kwonlyargs
+    · simp only [expectAll, addArg_existing d hz] at h; cases h
+    · have hz1 : z ∉ fb.args := fun h => hz (Or.inl h)
+      have hz2 : z ∉ fb.kwonlyargs := fun h => hz (Or.inr h)
+      cases d with
+      | none =>
+        obtain ⟨fb1, pre, post, hr, wf1, hp0, hp1, _, _, hk, hrest⟩ := addArg_none wf hz1 hz2
+        simp only [expectAll, hr] at h
+        obtain ⟨wf', hk', hrest', hperm, hd⟩ := ih wf1 h
+        refine ⟨wf', hk'.trans hk, hrest'.trans hrest, ?_, ?_⟩
+        · refine hperm.trans ?_
+          rw [hp1, hp0]
+          simp only [List.map_append, List.map_cons, List.append_assoc]
+          refine List.Perm.append_left _ ?_
+          simp only [List.cons_append]
+          exact (List.perm_middle (a := z) (l₁ := post.map Prod.fst) (l₂ := zs.map Prod.fst)).symm
+        · intro p hp
+          simp only [List.map_cons, List.mem_cons, not_or] at hp
+          rw [hd p hp.2, hp1, hp0, get?_insert_ne _ _ _ hp.1]
+      | some v =>
+        obtain ⟨fb1, hr, wf1, hp1, hk, hrest⟩ := addArg_some wf v hz1 hz2
+        simp only [expectAll, hr] at h
+        obtain ⟨wf', hk', hrest', hperm, hd⟩ := ih wf1 h
+        refine ⟨wf', hk'.trans hk, hrest'.trans hrest, ?_, ?_⟩
+        · refine hperm.trans ?_
+          rw [hp1]
+          simp only [List.map_append, List.map_cons, List.map_nil, List.append_assoc, List.singleton_append]
+          exact List.Perm.refl _
+        · intro p hp
+          simp only [List.map_cons, List.mem_cons, not_or] at hp
+          rw [hd p hp.2, hp1, get?_append]
+          have : get? p [((z, some v) : Name × Option Val)] = none := by
+            rw [get?_cons, if_neg (fun e => hp.1 e.symm)]; rfl
+          rw [this]; cases get? p fb.posSig <;> rfl
+
 end C13
